@@ -134,10 +134,13 @@ def c_fields(ty, name, known):
     return None
 
 
-def struct_c(header_text, cls, known, opaque_ok=True, cname=None):
+def struct_c(header_text, cls, known, opaque_ok=True, cname=None, bases=()):
     """(typedef text, member name list).  Members whose type cannot be lowered become
     `OPAQUE` placeholders (a unit that uses one fails to compile => exit 2)."""
-    mem = members(header_text, cls)
+    mem = []
+    for btxt, bcls in bases:
+        mem += members(btxt, bcls)
+    mem += members(header_text, cls)
     if not mem:
         raise ExtractionBroken('no data members found for class %s' % cls)
     lines = []
